@@ -1,0 +1,6 @@
+//go:build !verif
+
+package ls
+
+// verifPoint is a no-op unless built with the "verif" tag (see verif_on.go).
+func verifPoint(name string) {}
